@@ -387,8 +387,10 @@ def probe_history(desc, scaffold, rng):
                 ax = rng.randrange(len(sh))
                 w = np.array([rng.choice([-1, 1, 2]) for _ in range(sh[ax] * 2)], dtype=float).reshape(sh[ax], 2)
                 from qib.tensor_network import TensorNetwork
+                before_ids = set(stn.tensors)
                 net.merge(TensorNetwork.wrap(w, "hist_w"), [(ax, 0)])
-                sc = [sc, max(t for t in stn.tensors)] if tids else max(t for t in stn.tensors)
+                (new_id,) = set(stn.tensors) - before_ids
+                sc = [sc, new_id] if tids else new_id
             refn = tn.ref_dense(stn, net.data)
             c, am = net.contract_einsum()
             if not dense_ok(c, am, refn):
@@ -483,6 +485,7 @@ def run(ctx):
         nets.append(("open-structure", d, feats))
     exhaustive_budget = {4: 20 if ctx.thorough else 1, 5: 4 if ctx.thorough else 0, 6: 0}
     ntrees = 0
+    nhist = 0
     for name, desc, feats in nets:
         inp = {"net": desc}
         o = probe_net(desc)
@@ -526,7 +529,9 @@ def run(ctx):
         for sc in scaffolds:
             tinp = dict(inp, scaffold=sc)
             obs, fails, status = probe_tree(net, ref, sc, rng)
-            if status == "ok" and not did_history and tn.ref_size(net.net)[0] <= 5000:
+            if status == "ok" and not did_history and nhist < (400 if ctx.thorough else 60) \
+                    and tn.ref_size(net.net)[0] * max(1, tn.ref_size(net.net)[1]) <= 4000:
+                nhist += 1
                 did_history = True
                 hseed = rng.randrange(10 ** 9)
                 import random as _random
